@@ -3,6 +3,7 @@
 package props
 
 import (
+	"context"
 	"bytes"
 	"encoding/json"
 	"fmt"
@@ -76,6 +77,13 @@ func checkExecution(sc *scen.Scenario, in *scen.Instance, x *sched.Result) (stri
 	case x.Invariant != "":
 		return "invariant", x.Invariant
 	}
+	for i, o := range x.Obs {
+		// (decided before the expectation is computed: the same body run alone,
+		// outside the scheduler, would spin without a bound)
+		if strings.Contains(o, "did not terminate: more than") {
+			return "hang", fmt.Sprintf("thread %d: %s", i, o)
+		}
+	}
 	exp := in.Expect()
 	for i, o := range x.Obs {
 		if o != exp[i] {
@@ -111,14 +119,26 @@ func exploreScenario(sc scen.Scenario, bound int, maxExec int64, slice, nslices 
 			w.InternalError(msg + " in " + sc.Name)
 			return false
 		}
-		ch, _ := json.Marshal(x.Choices)
+		// trailing default choices need not be recorded (a replay takes choice 0 beyond the prefix)
+		chs := x.Choices
+		for len(chs) > 0 && chs[len(chs)-1] == 0 {
+			chs = chs[:len(chs)-1]
+		}
+		if chs == nil {
+			chs = []int{}
+		}
+		ch, _ := json.Marshal(chs)
+		expected := "every thread terminates"
+		if cls != "hang" {
+			expected = fmt.Sprint(last.Expect())
+		}
 		pre := 0
 		for i, p := range x.Points {
 			if p.RunningEnabled && x.Choices[i] != 0 {
 				pre++
 			}
 		}
-		viol = &report.Case{Kind: "sched", Expr: sc.Name, Op: fmt.Sprintf("schedule with %d preemption(s), %d points", pre, len(x.Points)), Expected: fmt.Sprint(last.Expect()), Got: msg, Class: cls,
+		viol = &report.Case{Kind: "sched", Expr: sc.Name, Op: fmt.Sprintf("schedule with %d preemption(s), %d points", pre, len(x.Points)), Expected: expected, Got: msg, Class: cls,
 			Extra: map[string]interface{}{"scenario": sc.Name, "choices": string(ch)}, Sig: prop + "|" + sc.Group + "|" + cls + "|" + scenarioKey(sc.Name), Weight: pre*1000 + len(x.Points)}
 		return false
 	})
@@ -225,7 +245,16 @@ func racePass(prop string, groups map[string]bool) func(tier string, m *explore.
 			go func(i int) {
 				defer wg.Done()
 				defer func() { <-sem }()
-				cmd := exec.Command(bin, tier, strconv.Itoa(i), strconv.Itoa(runs))
+				// 20 free runs of one scenario take a second or two; a process that needs
+				// more than the limit is reported as not terminating
+				limit := 3 * time.Minute
+				if tier == "thorough" {
+					limit = 10 * time.Minute
+				}
+				ctx, cancel := context.WithTimeout(context.Background(), limit)
+				defer cancel()
+				cmd := exec.CommandContext(ctx, bin, tier, strconv.Itoa(i), strconv.Itoa(runs))
+				cmd.WaitDelay = 2 * time.Second
 				cmd.Env = append(os.Environ(), "GORACE=halt_on_error=0 exitcode=66 atexit_sleep_ms=0")
 				var out bytes.Buffer
 				cmd.Stdout, cmd.Stderr = &out, &out
@@ -238,7 +267,10 @@ func racePass(prop string, groups map[string]bool) func(tier string, m *explore.
 				}
 				o := out.String()
 				cls := "race-pass-failure"
-				if strings.Contains(o, "DATA RACE") {
+				if ctx.Err() != nil {
+					cls = "hang"
+					o = fmt.Sprintf("no result within %v (20 free runs normally take seconds)\n", limit) + o
+				} else if strings.Contains(o, "DATA RACE") {
 					cls = "data-race"
 				} else if strings.Contains(o, "WRONG RESULT") {
 					cls = "result"
@@ -300,18 +332,24 @@ func init() {
 	})
 	report.RegisterReplayer("race", func(c *report.Case) (string, bool, error) {
 		bin := filepath.Join(explore.Root(), "mc", "bin", "mcrace")
-		cmd := exec.Command(bin, c.Extra["tier"].(string), fmt.Sprint(c.Extra["index"]), "20")
+		ctx, cancel := context.WithTimeout(context.Background(), 3*time.Minute)
+		defer cancel()
+		cmd := exec.CommandContext(ctx, bin, c.Extra["tier"].(string), fmt.Sprint(c.Extra["index"]), "20")
+		cmd.WaitDelay = 2 * time.Second
 		cmd.Env = append(os.Environ(), "GORACE=halt_on_error=0 exitcode=66 atexit_sleep_ms=0")
 		out, err := cmd.CombinedOutput()
 		if err == nil {
 			return "no race report", true, nil
 		}
+		if ctx.Err() != nil {
+			return "no result within 3m0s", false, nil
+		}
 		return firstLine(string(out)), false, nil
 	})
-	c05groups := map[string]bool{"expr": true, "closure": true, "closurepred": true, "three": true, "regex": true, "pool": true, "pool3": true, "expr2": true, "nested": true}
+	c05groups := map[string]bool{"expr": true, "compile": true, "closure": true, "closurepred": true, "three": true, "regex": true, "pool": true, "pool3": true, "expr2": true, "nested": true}
 	explore.Register(&explore.Property{
 		ID: "C05", Level: "model_checking",
-		Rule: "explorer C: for every scenario (2 threads, thorough also 3, sharing ONE compiled expression with their own navigators on different context nodes, over ~110 expressions covering every query-node type and every function closure; concurrent Compile of expressions with constant matches() patterns against a small RegexpCache; string-building functions sharing the builder pool) EVERY interleaving up to the preemption bound (quick: 1 for plain paths and regex-compile bodies, 2 for closures and pool; thorough: 2, and 3 for closures and pool) is executed under a cooperative scheduler with a scheduling point before every statement of package xpath (AST instrumentation via go build -overlay) and at every lock/pool operation (blocking modelled, pool made a deterministic shared LIFO); oracle per execution: every thread observes exactly what the same call observes alone on a fresh compile; deadlock and invariant checks at every point; the default schedule is replayed twice and must give identical traces. Separately the same scenario bodies run free under `-race` (20 runs each). states/transitions = scheduling points executed, traces = executions; non-trivial/distinct = scenarios explored",
+		Rule: "explorer C: for every scenario (2 threads, thorough also 3, sharing ONE compiled expression with their own navigators on different context nodes, over ~110 expressions covering every query-node type and every function closure; concurrent Compile of expressions with constant matches() patterns against a small RegexpCache; concurrent Compile / CompileWithNS of plain expressions (valid and invalid) followed by use; string-building functions sharing the builder pool) EVERY interleaving up to the preemption bound (quick: 1 for plain paths and regex-compile bodies, 2 for closures and pool; thorough: 2, and 3 for closures and pool) is executed under a cooperative scheduler with a scheduling point before every statement of package xpath (AST instrumentation via go build -overlay) and at every lock/pool operation (blocking modelled, pool made a deterministic shared LIFO); oracle per execution: every thread observes exactly what the same call observes alone on a fresh compile; deadlock and invariant checks at every point; the default schedule is replayed twice and must give identical traces. Separately the same scenario bodies run free under `-race` (20 runs each). states/transitions = scheduling points executed, traces = executions; non-trivial/distinct = scenarios explored",
 		Assumptions:    []string{"statement granularity under sequential consistency (a single Go statement is explored as atomic)", "plain-memory data races are decided by the separate free-running -race pass, not by the scheduler", "preemption bound 1-3, 2-3 threads, 5-node document"},
 		Budget:         budget(100*time.Second, 60*time.Minute),
 		ItemTimeout:    budget(6*time.Minute, 70*time.Minute), // one item = one scenario slice explored to its bound
